@@ -63,3 +63,4 @@ pub open spec fn builder_contents_follow(contents: Seq<Option<Arc<str>>>, mappin
 pub open spec fn map_contents_follow(contents: Seq<Option<SourceView>>, mapping: Seq<u32>, sm: &SourceMap, n: nat) -> bool {
     forall|i: int| 0 <= i < n ==> (#[trigger] old_text(sm, mapping[i]) matches Some(txt) ==> (i < contents.len() && (match contents[i] { Some(v) => sv_text(&v) == txt, None => false })))
 }
+
